@@ -48,7 +48,7 @@ import (
 type Op struct {
 	K string `json:"k"`           // emit | flush | shutdown | pause
 	P int    `json:"p,omitempty"` // perturbation before the op
-	T int    `json:"t,omitempty"` // flush/shutdown: ctx timeout in microseconds, 0 none, -1 cancelled
+	T int    `json:"t,omitempty"` // flush/shutdown: ctx timeout in microseconds, 0 none, -1 cancelled, -2/-3/-6 cancelled 0.3/0.6/1.5 ms after the call was issued
 	M bool   `json:"m,omitempty"` // emit: mutate the caller's record right after Emit returned
 }
 
@@ -110,7 +110,7 @@ func gen(t *rapid.T) Case {
 						op.M = rapid.Bool().Draw(t, "m")
 					case k < 18:
 						op.K = "flush"
-						op.T = rapid.SampledFrom([]int{0, 0, 0, 50, 5000, -1}).Draw(t, "ctx")
+						op.T = rapid.SampledFrom([]int{0, 0, 0, 50, 5000, -1, -2, -3, -6}).Draw(t, "ctx")
 					case k == 18 && !shutdownSeen && rapid.Bool().Draw(t, "really_shutdown"):
 						op.K = "shutdown"
 						op.T = rapid.SampledFrom([]int{0, 0, 100, -1}).Draw(t, "ctx")
@@ -250,6 +250,11 @@ type callRec struct {
 
 func mkCtx(t int) (context.Context, context.CancelFunc) {
 	switch {
+	case t <= -2:
+		// cancelled (not timed out) while the call is in progress
+		ctx, cancel := context.WithCancel(context.Background())
+		timer := time.AfterFunc(time.Duration(-t-1)*300*time.Microsecond, cancel)
+		return ctx, func() { timer.Stop(); cancel() }
 	case t < 0:
 		ctx, cancel := context.WithCancel(context.Background())
 		cancel()
